@@ -355,6 +355,14 @@ class StochasticActor(EvolvableNetwork):
         :return: Log probability of the action.
         :rtype: torch.Tensor
         """
+        # forward() returns squashed actions scaled to the action space: map them
+        # back to [-1, 1], where the squashed distribution lives
+        if isinstance(self.action_space, spaces.Box) and self.squash_output:
+            action = (
+                2.0 * (action - self.action_low) / (self.action_high - self.action_low)
+                - 1.0
+            )
+
         return self.head_net.log_prob(action)
 
     def action_entropy(self) -> torch.Tensor:
